@@ -12,7 +12,7 @@ import schedlib, os, re, json, vlib
 SDY = os.path.join(vlib.SPEC, 'sync'); SDS = os.path.join(vlib.SPEC, 'sched')
 SC_Q = ['mon_all', 'mon_all22', 'mon_one', 'mon_pred', 'mon_abort', 'bq', 'bq2', 'bq13', 'mtx', 'rwm', 'rwu', 'tgwait', 'exec1x3', 'suspF',
         'enq', 'enq1', 'enq0', 'enq0', 'enq03', 'enqL1', 'enq1L1', 'enqL2x2', 'enqx2']
-HOLD = ['mtx2a', 'mtx2b', 'mtx2c', 'mtx2d', 'tgwaitH', 'tgwait3H', 'exec1x3H', 'exec1x4H', 'suspFH', 'suspF2H', 'enqH', 'enq1H', 'enqL1H', 'enqx2H']     # sleeping paths entered on purpose (long runs)
+HOLD = ['execstay', 'execstay2', 'exec2x3H', 'exec2x4H', 'execbaton', 'mtx2a', 'mtx2b', 'mtx2c', 'mtx2d', 'tgwaitH', 'tgwait3H', 'exec1x3H', 'exec1x4H', 'suspFH', 'suspF2H', 'enqH', 'enq1H', 'enqL1H', 'enqx2H']     # sleeping paths entered on purpose (long runs)
 TSO = ['mon_all', 'mon_all22', 'mon_one', 'mon_pred', 'mon_abort', 'bq', 'bq13', 'mtx', 'rwm', 'rwu', 'tgwait', 'exec1x3', 'suspF']
 
 
@@ -66,6 +66,34 @@ def run(res, tier, seed):
     r = vlib.model_check(res, SDY, 'Monitor', 'Monitor_1x1_nofence.cfg', must_hold=False, deadlock=False)
     if r.violation != 'NoLostWakeup':
         raise vlib.HarnessFailure('vacuity control failed: the Monitor model without the notifier-side fence should lose a wake-up under TSO')
+    # ---- task_arena::execute without a free slot: ExecSlot with the fact BATON extracted from the running code by a directed schedule
+    p = vlib.sh([exe, 'probe_exec'], timeout=300)
+    try:
+        ef = json.loads([l for l in p.stdout.splitlines() if l.startswith('{')][-1])
+    except Exception:
+        raise vlib.HarnessFailure('execute probe failed: %s' % (p.stdout + p.stderr)[-1500:])
+    if ef['baton'] not in (0, 1):
+        raise vlib.HarnessFailure('execute probe inconclusive: %s' % ef.get('why'))
+    res.extra['code_facts'].update({'exec_baton': ef['baton']})
+    for cfg in ['ExecSlot_3x1.cfg', 'ExecSlot_3x1w.cfg', 'ExecSlot_3x2stay.cfg', 'ExecSlot_4x1.cfg'] + (['ExecSlot_4x2w.cfg'] if thorough else []):
+        txt = open(os.path.join(SDS, cfg)).read().replace('CONSTANT BATON = TRUE', 'CONSTANT BATON = %s' % ('TRUE' if ef['baton'] else 'FALSE'))
+        gen = 'gen_' + cfg; open(os.path.join(SDS, gen), 'w').write(txt)
+        try:
+            r = vlib.model_check(res, SDS, 'ExecSlot', gen, name='ExecSlot:' + cfg, must_hold=False, deadlock=True, timeout=2500)
+        finally:
+            os.unlink(os.path.join(SDS, gen))
+        vlib.tlc_must_hold(r, cfg)
+        if r.violation or r.deadlock:
+            if ef['baton']:
+                raise vlib.HarnessFailure('ExecSlot model fails with the default constants (%s)' % (r.violation or 'deadlock'))
+            res.violation('execslot:model:no-baton', 'a caller of task_arena::execute that leaves the slot-wait loop without having entered the arena does not pass the wake-up on '
+                          '(observed on the running code by a directed schedule); with that fact the ExecSlot model reaches a state where a caller sleeps for ever beside a free slot '
+                          '(%s in %s)' % (r.violation or 'deadlock', cfg), {'tlc_counterexample': vlib.extract_error_trace(r.out)[-40:], 'facts': ef})
+            break
+    for cfg in ['ExecSlot_3x1w_nobaton.cfg', 'ExecSlot_3x1_noleave.cfg', 'ExecSlot_3x2stay_nofin.cfg']:       # vacuity controls: each notification is needed
+        r = vlib.model_check(res, SDS, 'ExecSlot', cfg, must_hold=False, deadlock=True)
+        if not (r.violation or r.deadlock):
+            raise vlib.HarnessFailure('vacuity control failed: %s should deadlock or starve a caller' % cfg)
     # PoolState with the fact "the busy marker of a clear transaction is unique" as observed on the running code
     pcfg = 'PoolState_2x2.cfg' if facts.get('busy_unique') else 'PoolState_2x2_shared.cfg'
     r = vlib.model_check(res, SDS, 'MCp', pcfg, must_hold=False, deadlock=False, timeout=1500)
